@@ -431,6 +431,9 @@ class CFG:
                 rv = s['rv']
                 if rv['k'] == 'discr' and not rv['p']['pr']:
                     x = rv['p']['l']
+                elif rv['k'] == 'use' and 'k' in rv['x'] and 'scalar' in rv['x']['k'] and 'def' not in rv['x']['k']:
+                    # `if cond && false`: the switched local was assigned a literal in this very block
+                    return rv['x']['k']['scalar']['bits']
                 break
         if x is None:
             return None
